@@ -203,6 +203,12 @@ func (w *writeResHeaders) writeFrame(ctx writeContext) error {
 	// only waste 9 bytes anyway.
 	const maxFrameSize = 16384
 
+	if len(headerBlock) == 0 && w.endStream {
+		// Trailers without any (valid) value: there is no header block
+		// to send, but the stream still has to be ended.
+		return ctx.Framer().WriteData(w.streamID, true, nil)
+	}
+
 	first := true
 	for len(headerBlock) > 0 {
 		frag := headerBlock
@@ -261,6 +267,7 @@ func (wu *writeWindowUpdate) String() string {
 
 func encodeHeaders(enc *hpack.Encoder, h http.Header, keys []string) int {
 	headerSize := 0 // orignal header size
+	isTrailers := keys != nil
 	if keys == nil {
 		sorter := sorterPool.Get().(*sorter)
 		// Using defer here, since the returned keys from the
@@ -270,6 +277,11 @@ func encodeHeaders(enc *hpack.Encoder, h http.Header, keys []string) int {
 		keys = sorter.Keys(h)
 	}
 	for _, k := range keys {
+		if isTrailers && HopHeaders[k] {
+			// connection-specific fields must not be sent as trailers
+			// either, see RFC 7540 section 8.1.2.2
+			continue
+		}
 		vv := h[k]
 		k = lowerHeader(k)
 		if !validHeaderFieldName(k) {
